@@ -112,19 +112,22 @@ def check_case(case, acc):
         for v in sample.tolist():
             k_ = "nan" if v != v else v
             cnt[k_] = cnt.get(k_, 0) + 1
-        counts = sorted(cnt.values())
-        e_pc = ref_pc_counts(counts)
+        merged = sorted(cnt.values())
+        nnan = cnt.get("nan", 0)
+        distinct = sorted([c for k_, c in cnt.items() if k_ != "nan"] + [1] * nnan)
+        # whether missing labels form ONE category (NumPy's np.unique, the table forms) or are all different from each other (Python's
+        # NaN != NaN) is not stated for plain label vectors: either reading is accepted, but pc and stdpc must follow the same one
         r = acc.call(pyrepseq.pc, sample)
-        rn = acc.call(pyrepseq.pc_n, np.array(counts))
-        if raised(r) or raised(rn) or float(r) != float(e_pc) or float(rn) != float(e_pc):
-            acc.fail("pc/sample-with-nan-label", case, e_pc, (r, rn))
-            return
-        v_ = acc.call(pyrepseq.varpc_n, np.array(counts))
         s_ = acc.call(pyrepseq.stdpc, sample)
-        s2_ = acc.call(pyrepseq.stdpc, pd.Series(sample, index=range(N, 0, -1))) if False else s_
-        root = math.sqrt(float(v_)) if not raised(v_) and float(v_) >= 0 else float("nan")
-        if raised(s_) or not feq(s_, root, rel=1e-12, abs_=0.0):
-            acc.fail("stdpc/sample-with-nan-label", case, root, s_, note="counts %r" % (counts,))
+        ok = False
+        e_pc = ref_pc_counts(merged)
+        for counts in (merged, distinct):
+            v_ = acc.call(pyrepseq.varpc_n, np.array(counts))
+            root = math.sqrt(float(v_)) if not raised(v_) and float(v_) >= 0 else float("nan")
+            if not raised(r) and float(r) == float(ref_pc_counts(counts)) and not raised(s_) and feq(s_, root, rel=1e-12, abs_=0.0):
+                ok = True
+        if not ok:
+            acc.fail("stdpc/sample-with-nan-label", case, {"pc": float(e_pc), "or": float(ref_pc_counts(distinct))}, (r, s_), note="counts with NaN as one category %r" % (merged,))
             return
         acc.ok(("nan", N, float(e_pc)), nontrivial=True)
     elif kind == "NK2":
